@@ -66,3 +66,23 @@ Proof.
   split; [reflexivity|]. split; [reflexivity|].
   intros x Hx. repeat constructor; cbn [snd]; try lia; apply Z.gtb_lt; lia.
 Qed.
+
+(* the dispatcher tables as compiled on Arm hosts (cfg(arm/aarch64) arms of dispatch.rs, variants
+   Generic and Neon) are those of the model [armhost_dispatch_*]; Pipeline<_, Neon> overrides
+   nothing and the dispatcher has <Neon as Backend>::Lanes = 16 columns there.  (Read from the
+   source only: not compiled on the x86_64 host of the checks.) *)
+Theorem C07_source_armhost_tables :
+  gen_armhost_lanes = 16 /\
+  gen_pipeline_neon_f32 = (KDefaultArgmax, KDefaultMax) /\
+  gen_pipeline_neon_u8 = (KDefaultArgmax, KDefaultMax) /\
+  (forall (T : Type) (le : T -> T -> bool) (a : neon_arm) (m : list (list T)) (mz : list (list Z)),
+     armhost_dispatch_argmax le a m = run_argmax_armhost le (gen_armhost_dispatch_argmax_f32 a) m /\
+     armhost_dispatch_max le a m =
+       run_max_armhost le (gen_armhost_dispatch_max_f32 a) (armhost_dispatch_argmax le a m) m /\
+     armhost_dispatch_argmax Z.leb a mz = run_argmax_armhost Z.leb (gen_armhost_dispatch_argmax_u8 a) mz /\
+     armhost_dispatch_max Z.leb a mz =
+       run_max_armhost Z.leb (gen_armhost_dispatch_max_u8 a) (armhost_dispatch_argmax Z.leb a mz) mz).
+Proof.
+  split; [reflexivity|]. split; [reflexivity|]. split; [reflexivity|].
+  intros T le a m mz. destruct a; repeat split; reflexivity.
+Qed.
